@@ -75,6 +75,32 @@ try:
         except Exception as e:
             sels.append({"error": type(e).__name__})
     out["selections"] = sels
+    # the same selections through the command line (`tickit components NAME... CONFIG`): the real click command is invoked
+    # in-process; only the final asyncio.run is replaced (nothing is started), the simulation it would run is inspected
+    clis = []
+    try:
+        import types
+        from click.testing import CliRunner
+        import tickit.cli as cli
+        real_build = cli.build_simulation
+        for req in spec.get("selections", []):
+            cap = {}
+
+            def fake_build(*a, _cap=cap, **kw):
+                sim = real_build(*a, **kw)
+                _cap["sim"] = sim
+                return sim
+            cli.build_simulation = fake_build
+            cli.asyncio = types.SimpleNamespace(run=lambda coro: coro.close())
+            r = CliRunner().invoke(cli.main, ["components"] + list(req or []) + [path])
+            if "sim" in cap and r.exception is None:
+                clis.append({"components": sorted(cap["sim"]._components.keys()), "scheduler": cap["sim"]._scheduler is not None})
+            else:
+                clis.append({"error": type(r.exception).__name__ if r.exception is not None else f"exit {r.exit_code}"})
+        cli.build_simulation = real_build
+    except Exception as e:
+        clis = [{"worker_error": repr(e)[:200]}]
+    out["cli_selections"] = clis
 except Exception as e:
     import traceback
     out["errors"].append(traceback.format_exc()[-600:])
